@@ -26,24 +26,38 @@ TRUSTED = [
     "the python un-parser (render + denote) is a third, independent implementation of the documented grammar",
 ]
 ASSUMPTIONS = [
-    "conservation (nothing lost, nothing invented, order kept) is checked against the un-parser for the conventional "
-    "class only; outside it the index-discipline and provenance oracles and the model comparison apply",
+    "conservation (nothing lost, nothing invented, order kept) is proved in Coq for the model and checked against the python "
+    "un-parser for the implementation, for the conventional class only; outside it the index-discipline and provenance "
+    "oracles and the model comparison apply",
     "ids propagated as global values into other levels are outside the per-level index statement",
 ]
-TECHNIQUE = ("Coq proof (index discipline and key uniqueness as an instance of the primitive-closed state predicate of the "
-             "parse-loop invariant: every stored index is a fresh value of the running counter; validate/env/default "
-             "phases included) + extracted-model/implementation correspondence on the complete matches + python un-parser")
-LEVEL_TEXT = ("Machine-checked theorems (Coq 8.16, closed under the global context): for every command accepted by the "
-              "validity gate (class: no short flag-subcommands) and every token list, at every level of the recursion the "
-              "matcher that a successful get_matches_with returns has pairwise distinct keys, every stored index is at most "
-              "the running counter, the indices of one argument are strictly increasing and no index is shared by two "
-              "arguments (each index is a fresh value of cur_idx).  Conservation of values (each token consumed exactly "
-              "once as what the grammar says, split only at the declared delimiter) is checked on every run by comparing "
-              "the implementation with an independent un-parser (expected matches computed from the invocation that was "
-              "rendered) and by comparing the extracted model with the implementation on the complete result.")
-LEVEL_NOTE = ("Partial: the un-parser theorem parse(render inv) = denote inv is not proved in Coq (it is an executable "
-              "python oracle and a differential tie); proved are the index/key invariants for all inputs.  Trusted: Coq "
-              "kernel, extraction, OCaml driver, Rust harness, generators.")
+TECHNIQUE = ("Coq proof: (1) index discipline, key uniqueness and provenance as instances of the primitive-closed state predicate "
+             "of the parse-loop invariant; (2) the un-parser theorem: executable Gallina render/apply_items/occs/run_inv for "
+             "invocation trees, a simulation lemma per item kind (token loop = meaning of the item, for all states and any rest), "
+             "induction over the item list and over the command tree up to parse_top, conservation via C07's abstract fold and "
+             "C06's phase frames, the index rule of react folded over the occurrences) + extracted-model/implementation "
+             "correspondence on the complete matches + python un-parser")
+LEVEL_TEXT = ("Machine-checked theorems (Coq 8.16, closed under the global context).  (a) For every command accepted by the "
+              "validity gate (class: no short flag-subcommands) and every token list, at every level: pairwise distinct keys, "
+              "every index a fresh value of the running counter (unique, strictly increasing per argument), every stored value a "
+              "contiguous piece of a token / declared value / action literal.  (b) The un-parser theorem for the conventional "
+              "class (boolean predicates conv on the built command and wf_items/wf_inv on the invocation: flags and options by "
+              "long name or alias in the spellings --n, --n=v, --n v1..vk, short clusters -abc, -abcoV, -abco=V, -abco v1..vk, runs "
+              "of positional values, subcommands by name or alias to any depth): the token loop on render(items) ++ rest equals "
+              "the loop on rest from the state the items denote (each token consumed exactly once as the item part it was "
+              "rendered from; an equality of results, rejected lines included); all spellings denote the same occurrence list; "
+              "get_matches_with / _do_parse / try_get_matches_from on the rendered tree equal the tree's meaning (for trees "
+              "without global arguments: parse_top(bin :: render inv) = Ok(denote inv)); conservation at every level (the "
+              "occurrence groups reported per argument are exactly the invocation's: nothing dropped, duplicated, reordered, "
+              "invented or moved; split only by the declared delimiter); the subcommand chain is kept; the reported indices are "
+              "the closed form denote_idx (one per stored value, one for an option name given by flag) and the index events of a "
+              "level strictly increase in argv order.  Non-vacuity examples exercise every item kind and spelling.")
+LEVEL_NOTE = ("Outside the conventional class (-- and trailing values, last, trailing_var_arg, terminators, require_equals, hyphen "
+              "values, low-index multiples, allow_missing_positional, flag/external subcommands, ignore_errors, "
+              "args_conflicts_with_subcommands, non-ASCII short names) conservation is checked by the python un-parser / model "
+              "comparison only; conv is stated on the built command (decidable by computation); the composition with the global-"
+              "value merge is proved only for trees without globals (the merge itself is C09's).  Trusted: Coq kernel, extraction, "
+              "OCaml driver, Rust harness, generators.")
 
 VALS = [b"v", b"w", b"x1", b"1", b"0", b"zz", b"v=w", b"a.b", "é".encode(), b"3", b"=", b"e=", b"long-value", b"x y"]
 SHORTS = "abcdefgijklmnopqrstuwxyz"
